@@ -69,8 +69,21 @@ def run(c):
     rng = c.rng
     n = 20000 if c.quick else 400000
     cases, meta = [], {}
-    for i in range(n):
-        m, t, v, hs, body, feats, bk = gen_request(rng, i)
+    # size sweep: one long element (target, header value, header name, number of headers) with a length around every power
+    # of two up to 64 KiB (256 KiB thorough) - the parsed request must still be the request that was serialised
+    sized = []
+    for k in range(5, 17 if c.quick else 19):
+        for d in (-1, 0, 1):
+            L = (1 << k) + d
+            sized.append(("GET", "/" + "t" * L, "HTTP/1.1", [("Host", "h")], b"", {"size:target-2^%d" % k}, "empty"))
+            sized.append(("GET", "/p?q=" + "v" * L, "HTTP/1.1", [("Host", "h")], b"", {"size:query-2^%d" % k}, "empty"))
+            sized.append(("POST", "/", "HTTP/1.1", [("Host", "h"), ("X-Long", "x" * L), ("After", "1")], b"b", {"size:header-value-2^%d" % k}, "text"))
+            sized.append(("POST", "/", "HTTP/1.1", [("Origin", "https://" + "o" * L + ".example"), ("After", "1")], b"b", {"size:origin-2^%d" % k}, "text"))
+            sized.append(("POST", "/", "HTTP/1.1", [("N" * L, "v"), ("After", "1")], b"", {"size:header-name-2^%d" % k}, "empty"))
+            if k <= 12:
+                sized.append(("GET", "/", "HTTP/1.1", [("H%d" % j, "v%d" % j) for j in range(L)], b"", {"size:header-count-2^%d" % k}, "empty"))
+    for i in range(len(sized) + n):
+        m, t, v, hs, body, feats, bk = sized[i] if i < len(sized) else gen_request(rng, i)
         fields = [m, t, v, str(len(hs))]
         for k, val in hs:
             fields += [k, val]
